@@ -179,6 +179,44 @@ SEEDS = {
                                             'BP-OSD or MBP request followed by any other decoder',
                                             'missed at first: the interpreter now keeps mutable default arguments alive between calls; decode histories added to R20.4'),
     'C20-colormap-entry-removed': ('C20', 'colormap entry removed while one gui-config.json entry still names it', 'Rotated Planar 2D, rotated picture', ''),
+
+    # ---------------------------------------------------------------- round 3
+    'C02-from-bsf-unsorted-indices': ('C02', 'from_bsf loses the sort of the stored column indices (revert of a repository fix)', 'a csr row with a Z index stored before its X index (bsparse.insert_mod2)', ''),
+    'C02-matrix-row-y-keeps-z-bit': ('C02', 'stabilizer_matrix records one key per qubit: Y contributes only its Z bit', 'a stabilizer containing Y (XY deformation, user-defined code)', ''),
+    'C03-dense-weight-uint8-vdot': ('C03', 'bsf_wt (dense) by inclusion-exclusion with np.vdot on uint8: the Y count wraps at 256', 'a uint8 BSF array with >= 256 Y', 'first ended in exit 2 (np.vdot not evaluated): whitelist extended, 300-qubit uint8 cases added to R03.2'),
+    'C03-bsf-to-pauli-unsorted-indices': ('C03', 'bsf_to_pauli (sparse) loses the sort of the stored indices (revert of a repository fix)', 'unsorted csr row', ''),
+    'C04-batched-effect-without-transpose': ('C04', 'batched get_effective_error concatenates without transposing: rows no longer [X-effects | Z-effects]', 'batch of m >= 2 errors on a code with k >= 2', ''),
+    'C04-deform-logicals-drop-kwargs': ('C04', 'deformed logicals are built without the deformation keyword arguments', "deform('XZZX', deformation_axis='x')", 'reported by C08 R08.3 (forwarding of name and kwargs)'),
+    'C05-plain-bp-when-osd-order-zero': ('C05', 'BP-OSD builds a plain ldpc.BpDecoder when osd_order == 0', 'osd_order=0 (GUI, example inputs) and a syndrome on which BP does not converge', 'missed at first: osd_order=0 configurations and the "has an OSD stage" obligation added to R05.3'),
+    'C05-extract-syndrome-contiguous-block': ('C05', 'extract_x/z_syndrome take a contiguous block of rows instead of the boolean mask', 'a code whose X and Z stabilizers are interleaved (2-D colour codes)', 'first ended in exit 2 (builtin slice() not interpreted): interpreter extended, reported by C02 R02.2 on an interleaved abstract matrix'),
+    'C06-result-read-from-ldpc-buffer': ('C06', 'decode reads osdw_decoding again instead of the return value (revert of a repository fix)', 'reused decoder, zero sector after a non-zero one', ''),
+    'C06-channel-pushed-only-when-changed': ('C06', 'channel probabilities pushed to ldpc only when the cached arrays changed + conditional update skipped for a zero correction', 'channel_update=True and a zero X sector after a conditioned call', 'reported by R06.3 (state kept on the decoder between calls)'),
+    'C07-deformation-lookup-per-axis': ('C07', 'noise-side deformation looked up once per qubit_axis', 'codes whose deformation depends on position (colour codes)', ''),
+    'C07-conditional-update-guard-wrong-event': ('C07', 'the not-flipped branch of the conditional update is guarded by P(flip) != 0: where it is 0 the prior stays 0 instead of p/(1-0)', 'channel_update=True and a vertex of the simplex (pure X noise)', 'missed at first: R07.7 now judges the returned value path by path, knowing which probabilities the path assumed to be zero'),
+    'C08-get-stabilizer-memoised-toric2d': ('C08', 'lru_cache on Toric2DCode.get_stabilizer while deform rewrites the returned dict in place', 'deform, read the matrix, deform again', ''),
+    'C08-effective-error-half-product': ('C08', 'get_effective_error uses half of each symplectic product (logical X assumed pure X-type)', 'a deformed code (logicals of mixed type)', 'missed at first (C04 exit 2): value-level rule with fully symbolic logicals added (R04.3)'),
+    'C09-weights-rate-clamped': ('C09', 'weights computed at min(error_rate, 0.5)', 'total rate above 1/2 with non-uniform weights', 'missed at first: the (code, rate) the channel is asked for is now checked at every consumer (R09.1, R07.6, R18.1, R18.3, R07.3)'),
+    'C09-get-weights-fast-path-ignores-name': ('C09', 'PauliErrorModel.get_weights override returns undeformed weights when deformation_kwargs is empty', "deformation_name='XZZX' without keyword arguments", 'first ended in exit 2: get_weights as resolved on the concrete class is now evaluated against the distribution of the same object (R09.1, R07.5)'),
+    'C10-fancy-index-toggle-once': ('C10', 'faces of all flipped edges toggled in one fancy-indexed assignment: a face shared by two edges flips once', 'two edges flipped in one step that share a face', 'first ended in exit 2: toggle-per-edge obligation added to R10.1'),
+    'C10-automaton-in-place-on-syndrome': ('C10', 'get_initial_state returns the syndrome itself when no vertex is excited; sweep_move flips in place', 'pure-Z error decoded twice from the same array', 'reported by C06 R06.1/R06.5; C10 R10.5 ends undecided'),
+    'C11-sampling-table-keyed-by-label': ('C11', 'per-qubit sampling tables kept in a module-level dict keyed by (model label, code label, rate)', 'two models differing only in deformation axis', 'first ended in exit 2: module-level state rule added (R11.3, R07.3, R06.3) with a positive control'),
+    'C11-matching-output-buffer-aliased': ('C11', 'MatchingDecoder returns one preallocated array on every call: recorded corrections of earlier trials are overwritten', 'two run_once records from one decoder, audited afterwards', 'reported by C06 R06.3'),
+    'C12-pending-list-hoisted': ('C12', 'the n_results < n_trials test is hoisted out of the trial loop', 'simulations with different saved counts (a specification that grew)', ''),
+    'C12-replace-before-close': ('C12', 'save_json streams through an opener alias and calls os.replace inside the writing with-block', 'kill right after the rename', 'first ended in exit 2: opener aliases followed, replace must come after the writer is closed (R12.1)'),
+    'C13-decoder-rate-setdefault': ('C13', "decoder parameters keep the first error rate (setdefault on the shared dict)", 'a range with two or more error rates', ''),
+    'C13-falsy-entries-filtered': ('C13', 'falsy entries of a parameter list are dropped', 'rate 0.0 or {} in a list', ''),
+    'C14-input-index-proportional': ('C14', 'task -> input mapping changed to i_task*n_inputs//n_tasks while the rest assumes the floor layout', 'n_tasks % n_inputs != 0', ''),
+    'C14-input-list-through-set': ('C14', 'input list de-duplicated through a set of paths: order depends on PYTHONHASHSEED per node', 'nodes = separate processes', 'first reported for a wrong reason (a TOP file name counted as a task with 0 trials): untracked task arguments are now undecided and the input-order obligation (no hash-ordered collection of paths) was added to R14.2'),
+    'C15-round-after-grouping': ('C15', 'error_rate rounded after the groupby instead of before', '0.3 in one file, 0.1*3 in another', 'missed at first: rounding-before-grouping obligation added to R15.2'),
+    'C15-merge-extend-instead-of-append': ('C15', 'merge_results extends with the loaded object: a dict file contributes its keys', 'mix of list files and single-simulation dict files', ''),
+    'C16-n-fail-first-file-only': ('C16', 'n_fail taken with first() per group', 'a data point split over several files', 'reported by C15 R15.1'),
+    'C16-parsed-entries-cached-by-second': ('C16', 'parsed entries cached under (path, int(mtime))', 'file rewritten within the same second', 'reported by C15 R15.6'),
+    'C18-local-loglik-update': ('C18', 'log-likelihood of the proposal computed by a local update that assumes an empty qubit', 'proposal on a qubit that already carries another Pauli', ''),
+    'C18-select-first-match': ('C18', 'np.select with [x, z, x&z]: a Y is priced as X', 'error containing Y with p_x != p_y', ''),
+    'C19-range-point-count-floor': ('C19', 'range expanded with int((max-min)/step)+1 points', '(max-min)/step just below an integer in floating point', ''),
+    'C19-rectangular-size-squared': ('C19', 'two-number sizes read as L x L x L', 'a rectangular 2-D size such as 4x6', ''),
+    'C20-qubit-template-reused': ('C20', 'qubit descriptions copied from the first qubit, only axis and location refreshed', 'codes whose qubit drawing depends on the qubit (rotated 3-D codes)', 'first ended in exit 2: copy.deepcopy interpreted, representations are per-location dictionaries, every path of the handler is judged (R20.4)'),
+    'C20-noise-deformation-dropped-when-symmetric': ('C20', 'noise deformation dropped when r_x == r_z', "'Pure Y' noise with the 'XY' deformation", 'missed at first: every noise direction x noise deformation of the menu is requested; dropping is accepted exactly when the direction is invariant under the swap (R20.4)'),
 }
 EXTRA_FILE = os.path.join(HERE, 'seeded', 'EXTRA.json')
 
